@@ -134,7 +134,15 @@ fn flatten_company(f: &mut Field, c: &Case) {
 
 pub fn victims(c: &Case) -> Vec<Item> {
     let plain = |n: &str| Field::new(n, Ty::Prim(Prim::String));
-    let bad = bad_ty(&c.construct).map(|t| wrap(t, &c.chain));
+    // the 64-bit primitives also in their path-qualified spellings (`std::primitive::u64`, `::core::primitive::usize`)
+    let bad = bad_ty(&c.construct).map(|t| {
+        let t = match (&t, (c.base.len() + c.chain.len() + c.lang as usize) % 3) {
+            (Ty::Bad(_), 1) => Ty::Qual(vec!["std".into(), "primitive".into()], Box::new(t)),
+            (Ty::Bad(_), 2) => Ty::Qual(vec!["".into(), "core".into(), "primitive".into()], Box::new(t)),
+            _ => t,
+        };
+        wrap(t, &c.chain)
+    });
     let mut out = vec![];
     match c.position {
         Position::Field => {
